@@ -346,6 +346,8 @@ class LinkSym:
         n = self.fn.N(x)
         if n.get('v') == 0 and ('*' in (n.get('t') or '') or n['k'] in ('CXXNullPtrLiteralExpr', 'GNUNullExpr', 'IntegerLiteral')):
             return NULL
+        if n.get('v') is not None and '*' not in (n.get('t') or ''):
+            return ('int', n['v'])          # a folded constant, also when spelled as a named constant
         if n.get('c') and (n['k'] in ('ExprWithCleanups', 'ParenExpr', 'MaterializeTemporaryExpr', 'CXXBindTemporaryExpr', 'ConstantExpr')
                            or (n['k'].endswith('CastExpr') and n.get('ck') in ('NoOp', 'BitCast', 'LValueToRValue'))):
             return self._term(st, n['c'][0], val)
@@ -408,7 +410,7 @@ class LinkSym:
         c = e.get('c') or []
         loc = fn.loc(e)
         if k == 'DeclRefExpr':
-            if e.get('v') is not None and not e.get('lv'):
+            if e.get('v') is not None and (not e.get('lv') or e.get('cv') is not None):
                 val[i] = ('int', e['v'])
             else:
                 val[i] = ('lvalue', self._lv_key(st, e, val))
@@ -456,6 +458,8 @@ class LinkSym:
                 val[i] = src if src is not None and isinstance(src, tuple) and src[0] in ('null', 'sym', 'fresh', 'init', 'call', 'seg') else None
                 if e.get('v') == 0 and '*' in (e.get('t') or ''):
                     val[i] = NULL
+                elif e.get('v') is not None and '*' not in (e.get('t') or ''):
+                    val[i] = ('int', e['v'])        # integral conversion of a folded constant (e.g. a named int8 constant promoted to int)
             return
         if k == 'UnaryOperator':
             op = e['op']
